@@ -76,7 +76,7 @@ def _records(nodes, depth, compression, out_recs, out_chans, counter):
             gch = ChannelDataList([ChannelData(compression=Compression.RAW, data=b"") for _ in range(4)])
             m = n.get("mask")
             if m:       # a raster mask on the group record, stored like a pixel layer's
-                g.mask_data, minfo, mchan = _mask(m, compression)
+                g.mask_data, minfo, mchan = _mask(m, compression, depth)
                 g.channel_info.append(minfo)
                 gch.append(mchan)
             out_recs.append(g)
@@ -98,7 +98,7 @@ def _records(nodes, depth, compression, out_recs, out_chans, counter):
             chans.append(_chan(_bytes(color[:, :, ci], depth), w, h, depth, compression))
         m = n.get("mask")
         if m:
-            rec.mask_data, minfo, mchan = _mask(m, compression)
+            rec.mask_data, minfo, mchan = _mask(m, compression, depth)
             infos.append(minfo)
             chans.append(mchan)
         rec.channel_info = infos
@@ -106,8 +106,9 @@ def _records(nodes, depth, compression, out_recs, out_chans, counter):
         out_chans.append(chans)
 
 
-def _mask(m, compression):
-    """(MaskData, ChannelInfo, ChannelData) of a raster mask {"rect", "bg", "data", "disabled", "density"}"""
+def _mask(m, compression, depth=8):
+    """(MaskData, ChannelInfo, ChannelData) of a raster mask {"rect", "bg", "data", "disabled", "density"}; the mask plane is
+    stored at the document depth (that is how the readers decode it)"""
     ml, mt, mr, mb = m["rect"]
     params = None
     if m.get("density") is not None:
@@ -115,7 +116,7 @@ def _mask(m, compression):
     md = MaskData(top=mt, left=ml, bottom=mb, right=mr, background_color=int(m.get("bg", 0)),
                   flags=MaskFlags(mask_disabled=bool(m.get("disabled", False)),
                                   parameters_applied=params is not None), parameters=params)
-    return md, ChannelInfo(id=ChannelID.USER_LAYER_MASK, length=2), _chan(_bytes(m["data"], 8), mr - ml, mb - mt, 8, compression)
+    return md, ChannelInfo(id=ChannelID.USER_LAYER_MASK, length=2), _chan(_bytes(m["data"], depth), mr - ml, mb - mt, depth, compression)
 
 
 def _bytes(arr, depth):
@@ -124,6 +125,8 @@ def _bytes(arr, depth):
         return a.astype(np.uint8).tobytes()
     if depth == 16:
         return (a.astype(np.uint32) * 257).astype(">u2").tobytes()
+    if depth == 32:     # (added for C17) the same 8-bit value as a big-endian float32 in [0, 1]
+        return (a.astype(np.float32) / np.float32(255.0)).astype(">f4").tobytes()
     raise ValueError(depth)
 
 
